@@ -13,6 +13,14 @@ def flip(imp, bit=5):
     b = bytearray(imp); b[1 + bit // 8] ^= 1 << (bit % 8); return bytes(b)
 
 
+def other_imprint(imp, rng):
+    """an imprint that differs from imp: one digest bit flipped, or -- for SHA-256 imprints, half of the time -- the SAME digest under another
+    algorithm id with the same digest length (SHA3-256 = 0x08, SM3 = 0x0b): equal digests are not equal imprints"""
+    if imp[0] == 1 and rng.random() < 0.5:
+        return bytes([rng.choice([0x08, 0x0b])]) + imp[1:]
+    return flip(imp, rng.randrange(8 * (len(imp) - 1)))
+
+
 def pad_payload(p, rng, tag):
     """metadata payload realising padding form p"""
     cid_len = 6
@@ -120,9 +128,9 @@ def realize(case, rng):
             field = None
         s.cal = dict(pub=pub, aggr=field, inp=cin, links=clinks)
         if case["anchor"] == "pub":
-            s.pub = dict(time=pub + 1 if has("pubTime") else pub, imp=flip(root) if has("pubHash") else root)
+            s.pub = dict(time=pub + 1 if has("pubTime") else pub, imp=other_imprint(root, rng) if has("pubHash") else root)
         elif case["anchor"] == "auth":
-            s.auth = dict(time=pub + 1 if has("authTime") else pub, imp=flip(root) if has("authHash") else root)
+            s.auth = dict(time=pub + 1 if has("authTime") else pub, imp=other_imprint(root, rng) if has("authHash") else root)
     d = dict(sig=s.tlv(), doc=None, level=None)
     if case["doc"] == "equal":
         d["doc"] = doc
